@@ -232,9 +232,24 @@ pub fn gen_case(args: &Args, rng: &mut Rng, finite_inputs: bool) -> Case {
             prog = generate(rng, feat.clone());
         }
     }
-    let src = prog.print();
     let n = *rng.pick(&[8usize, 16, 24, 40, 64]);
-    Case { src, n, input_seed: rng.next(), finite_inputs, prog: Some(prog), expect: None, scheduler: false, path: None, origin: None, split: None }
+    let input_seed = rng.next();
+    // the same question over a whole run (80 samples cover every run length the properties use) with the
+    // case's own inputs: found by ./check C05 thorough at seed 7 (second program of that kind)
+    if args.prop != "C03" && crate::refsem::is_heavy_run(&prog, 80, 3_000_000, &input_fn(input_seed, finite_inputs)) {
+        let mut f2 = feat.clone();
+        f2.hof = false;
+        f2.lambdas = false;
+        f2.escaping_closures = false;
+        for _ in 0..24 {
+            prog = generate(rng, f2.clone());
+            if !crate::refsem::is_heavy_run(&prog, 80, 3_000_000, &input_fn(input_seed, finite_inputs)) {
+                break;
+            }
+        }
+    }
+    let src = prog.print();
+    Case { src, n, input_seed, finite_inputs, prog: Some(prog), expect: None, scheduler: false, path: None, origin: None, split: None }
 }
 
 /// The enumerated family "every state word is audible" (gens::layoutfam) as cases.
